@@ -131,6 +131,7 @@ def cases(tier, seed):
             out.append({"k": "arrays", "s": list(shape), "v": var})
     out.append({"k": "dtypes"})
     out.append({"k": "twins"})
+    out.append({"k": "wide"})
     for i in range(6):
         out.append({"k": "unsorted_names", "i": i})
     out.append({"k": "product"})
@@ -166,6 +167,12 @@ def run_case(case, R):
                 R.state(("unsorted", names, str(t)))
                 check_poly(R, spec(names, (), t), f"{names} {t}", CONFIGS, seqlen=2)
                 check_poly(R, spec(names, (2,), [(e, [c, -c]) for e, c in t]), f"{names} {t} array", CONFIGS[::3], seqlen=2)
+    elif k == "wide":
+        for i, (lab, sp) in enumerate(space.wide_specs() + space.wide_array_specs()):
+            if len(sp["n"]) > 20:
+                continue
+            R.state(("wide", i))
+            check_poly(R, sp, lab, [CONFIGS[0], CONFIGS[11]], seqlen=1)
     elif k == "twins":
         for i, sp in enumerate(space.twin_sequence()):
             R.state(("twins", i))
